@@ -62,3 +62,41 @@ pub fn convert<A: CanonicalSerialize, B: CanonicalSerialize + CanonicalDeseriali
     assert!(bytes == back, "MACHINERY: mirror struct does not round-trip");
     b
 }
+
+#[derive(Clone, CanonicalSerialize, CanonicalDeserialize)]
+pub struct MSprs<F: PrimeField> {
+    pub n: usize,
+    pub m: usize,
+    pub d: usize,
+    pub ind_ptr: Vec<usize>,
+    pub col_ind: Vec<usize>,
+    pub val: Vec<F>,
+}
+
+/// Mirror of `BrakedownPCParams` with unit hash parameters.
+#[derive(Clone, CanonicalSerialize, CanonicalDeserialize)]
+pub struct MBrkParams<F: PrimeField> {
+    pub sec_param: usize,
+    pub alpha: (usize, usize),
+    pub beta: (usize, usize),
+    pub rho_inv: (usize, usize),
+    pub base_len: usize,
+    pub n: usize,
+    pub m: usize,
+    pub m_ext: usize,
+    pub a_dims: Vec<(usize, usize, usize)>,
+    pub b_dims: Vec<(usize, usize, usize)>,
+    pub start: Vec<usize>,
+    pub end: Vec<usize>,
+    pub a_mats: Vec<MSprs<F>>,
+    pub b_mats: Vec<MSprs<F>>,
+    pub check_well_formedness: bool,
+}
+
+/// Mirror of `LigeroPCParams` with unit hash parameters.
+#[derive(Clone, CanonicalSerialize, CanonicalDeserialize)]
+pub struct MLigParams {
+    pub sec_param: usize,
+    pub rho_inv: usize,
+    pub check_well_formedness: bool,
+}
